@@ -51,6 +51,10 @@ class Bada3AircraftParameters(BaseAircraftParameters):
     cas_cruise_hi: float | None = None
     cas_cruise_mach: float | None = None
 
+    def __getitem__(self, key: str):
+        """Dictionary-style read access to a parameter (used by the engine models)."""
+        return getattr(self, key)
+
     def assign_parameters_fromdict(self, parameters: dict):
         """
         Assigns the parameters from a dictionary.
